@@ -117,15 +117,20 @@ def make_tree(case, comments=None, source=""):
 
     n = case["n"]
     xyz = np.array(case["xyz"], dtype=np.float32).reshape(n, 3)
-    return Tree(
-        n,
-        id=np.arange(n, dtype=np.int32),
-        pid=np.array(case["pids"], dtype=np.int32),
-        type=np.array(case["types"], dtype=np.int32),
-        x=xyz[:, 0].copy(), y=xyz[:, 1].copy(), z=xyz[:, 2].copy(),
-        r=np.array(case["r"], dtype=np.float32),
-        comments=comments, source=source,
-    )
+    cols = dict(id=np.arange(n, dtype=np.int32), pid=np.array(case["pids"], dtype=np.int32), type=np.array(case["types"], dtype=np.int32),
+                x=xyz[:, 0].copy(), y=xyz[:, 1].copy(), z=xyz[:, 2].copy(), r=np.array(case["r"], dtype=np.float32))
+    if case.get("names"):
+        # the tree's own column-name table (the public `names=` option): {"id": "n", "pid": "parent", ...}; read results through the
+        # accessors tree.id() / pid() / type() / xyz() / r(), which honour it
+        from swcgeom.core.swc_utils import SWCNames
+
+        table = SWCNames(**case["names"])
+        return Tree(n, **{case["names"].get(k, k): v for k, v in cols.items()}, names=table, comments=comments, source=source)
+    return Tree(n, **cols, comments=comments, source=source)
+
+
+OWN_NAMES = [{"id": "n", "pid": "parent"}, {"id": "n", "pid": "parent", "x": "X", "y": "Y", "z": "Z", "r": "R", "type": "T"},
+             {"x": "px", "y": "py", "z": "pz"}, {"pid": "up", "type": "label"}]
 
 
 def sizes(tier: str, widen: bool):
